@@ -14,6 +14,7 @@ package main
 import (
 	"encoding/hex"
 	"fmt"
+	"os"
 	"reflect"
 	"sort"
 	"strings"
@@ -1335,6 +1336,13 @@ func runC20(tier string, seed uint64, o *Out) error {
 	// NewRNG(seed) and NewRNG(seed+1) produce the same stream shifted by one draw; hash the seed first so
 	// that different seeds explore unrelated cases
 	rng := NewRNG((seed ^ 0x5851F42D4C957F2D) * 0xD1342543DE82EF95)
+	t0 := time.Now()
+	phase := func(name string) { // VERIF_C20_TIMING=1: where the wall time goes (stderr)
+		if os.Getenv("VERIF_C20_TIMING") != "" {
+			fmt.Fprintf(os.Stderr, "c20 phase %-28s %6d ms\n", name, time.Since(t0).Milliseconds())
+		}
+		t0 = time.Now()
+	}
 	nD, nDA, nDP, nW, rounds := 260, 40, 40, 50, 1
 	if tier == "thorough" {
 		nD, nDA, nDP, nW, rounds = 4000, 400, 600, 500, 4
@@ -1451,12 +1459,14 @@ func runC20(tier string, seed uint64, o *Out) error {
 		o.Line("%s", lb)
 		o.Count("D_sync_paired")
 	}
+	phase("D direct")
 	// (4) window path
 	for i := 0; i < nW; i++ {
 		if err := c20RunW(rng, o); err != nil {
 			return err
 		}
 	}
+	phase("W window")
 	// (5) deep snapshots + sink rows, every query kind
 	for r := 0; r < rounds; r++ {
 		for _, k := range c20Kinds() {
@@ -1471,6 +1481,7 @@ func runC20(tier string, seed uint64, o *Out) error {
 			o.Count("U_" + k.kind)
 		}
 	}
+	phase("U fixed kinds")
 	// (5b) generated feature combinations
 	nCW, nCD := 30, 14
 	if tier == "thorough" {
@@ -1504,9 +1515,10 @@ func runC20(tier string, seed uint64, o *Out) error {
 	if okc < (nCW+nCD)/2 {
 		return fmt.Errorf("feature-combination family: only %d of %d generated queries were accepted by the engine", okc, nCW+nCD)
 	}
+	phase("U combos")
 	nfn := 0
 	for _, k := range c20FunctionKinds() {
-		if tier != "thorough" && rng.Intn(3) != 0 {
+		if tier != "thorough" && rng.Intn(6) != 0 {
 			continue
 		}
 		ok, _ := c20RunU(rng, k, "sync", o, true)
@@ -1515,10 +1527,18 @@ func runC20(tier string, seed uint64, o *Out) error {
 		}
 	}
 	o.Dist["U_registered_function_calls"] = nfn
+	// (5b') every registered function x every argument list of a shape table that fits its arity, nested
+	//      columns with spare capacity, EmitSync and Emit, direct / JOIN / window path (c20c.go)
+	phase("U function sample")
+	if err := c20RunNestedFnFamily(rng, tier, o); err != nil {
+		return err
+	}
+	phase("U nested-argument functions")
 	// (5c) unnest() over arrays of objects / scalars / mixed next to other projected columns (c20b.go)
 	if err := c20RunUnnestFamily(rng, tier, o); err != nil {
 		return err
 	}
+	phase("U unnest")
 	// (6) paired vs solo
 	modes := []string{"random", "a_first", "b_first", "concurrent"}
 	nNear := 24
@@ -1539,5 +1559,14 @@ func runC20(tier string, seed uint64, o *Out) error {
 	}
 	// (7) the function registry: parameterised / plain aggregates in default- and explicit-parameter
 	//     forms, instances created after the other one ran, every solo run in a fresh process (c20b.go)
-	return c20RunRegistryFamily(rng, tier, o)
+	phase("P in-process pairs")
+	if err := c20RunRegistryFamily(rng, tier, o); err != nil {
+		return err
+	}
+	phase("P registry")
+	// (8) the same expression text over differently typed rows at every site that reaches the expression
+	//     bridge, every solo run in a fresh process (c20c.go)
+	err := c20RunTypedBridgeFamily(rng, tier, o)
+	phase("P typed bridge")
+	return err
 }
